@@ -16,7 +16,7 @@ for d in dirs:
     d = d.rstrip("/")
     meta = json.load(open(os.path.join(d, "meta.json")))
     props = meta["property"] if isinstance(meta["property"], list) else [meta["property"]]
-    patch = os.path.join(d, "patch.diff")
+    patch = os.path.abspath(os.path.join(d, "patch.diff"))
     r = git("apply", "--check", patch)
     if r.returncode != 0:
         rows.append((os.path.basename(d), props, "patch does not apply", ""))
